@@ -88,20 +88,7 @@ Proof.
     rewrite (Hext a) by auto. destruct (g a); simpl; erewrite IH; eauto.
 Qed.
 
-(** ---- children ---- *)
-Section Tree.
-Variable N : nat.
-Variable parent : tid -> option tid.
-
-Lemma in_children : forall t c, In c (children N parent t) <-> (1 <= c <= N /\ parent c = Some t).
-Proof.
-  intros; unfold children, is_child_of. rewrite filter_In, in_seq.
-  destruct (parent c) as [p|]; [destruct (Nat.eqb_spec p t)|]; split; intros [H1 H2];
-    try discriminate; try (split; [lia|congruence]); try congruence.
-Qed.
-Lemma NoDup_children : forall t, NoDup (children N parent t).
-Proof. intros; unfold children. apply NoDup_filter, seq_NoDup. Qed.
-
+(** ---- tid lists ---- *)
 Lemma mem_tid_In : forall x l, mem_tid x l = true <-> In x l.
 Proof.
   intros; unfold mem_tid. rewrite existsb_exists. split.
@@ -118,6 +105,33 @@ Proof.
 Qed.
 Lemma NoDup_remove_tid : forall x l, NoDup l -> NoDup (remove_tid x l).
 Proof. intros; apply NoDup_filter; auto. Qed.
+Lemma mem_remove_same : forall x l, mem_tid x (remove_tid x l) = false.
+Proof. intros. apply mem_tid_false. intros H. apply in_remove_tid in H. tauto. Qed.
+Lemma mem_remove_other : forall c x l, c <> x -> mem_tid c (remove_tid x l) = mem_tid c l.
+Proof.
+  intros. destruct (mem_tid c l) eqn:E.
+  - apply mem_tid_In. apply in_remove_tid. split; auto. now apply mem_tid_In.
+  - apply mem_tid_false. intros H0. apply in_remove_tid in H0. apply mem_tid_false in E. tauto.
+Qed.
+Lemma remove_nil_mem : forall c x l, remove_tid x l = [] -> c <> x -> mem_tid c l = false.
+Proof.
+  intros c x l E Hne. rewrite <- (mem_remove_other c x l Hne), E. reflexivity.
+Qed.
+
+(** ---- children ---- *)
+Section Tree.
+Variable N : nat.
+Variable parent : tid -> option tid.
+
+Lemma in_children : forall t c, In c (children N parent t) <-> (1 <= c <= N /\ parent c = Some t).
+Proof.
+  intros; unfold children, is_child_of. rewrite filter_In, in_seq.
+  destruct (parent c) as [p|]; [destruct (Nat.eqb_spec p t)|]; split; intros [H1 H2];
+    try discriminate; try (split; [lia|congruence]); try congruence.
+Qed.
+Lemma NoDup_children : forall t, NoDup (children N parent t).
+Proof. intros; unfold children. apply NoDup_filter, seq_NoDup. Qed.
+
 End Tree.
 
 (** ---- step inversion ---- *)
